@@ -6,6 +6,7 @@ CONSTANTS
   SaltIds = {}
   SaltWith = {}
   KShifts = {}
+  SaltKShifts = {0}
   InitSeq <- NoSeq
   InitPatterns = {}
   SolidInits = {}
